@@ -215,7 +215,21 @@ def run(tier='quick', seed=0):
                                'term': repr(t), 'rearranged': repr(t2)})
         pt3 = check_conv('proplogic.norm_full', proplogic.norm_full(), pt.prop.rhs)
         if pt3 is not None and pt3.prop.rhs != pt.prop.rhs:
-            violations.append({'function': 'conversion proplogic.norm_full', 'clause': 'idempotent',
+            lits3 = set()
+
+            def collect3(u):
+                if u.is_conj() or u.is_disj():
+                    for w in (u.strip_conj() if u.is_conj() else u.strip_disj()):
+                        collect3(w)
+                else:
+                    w = u
+                    while w.is_not() and w.arg.is_not():
+                        w = w.arg.arg
+                    lits3.add(w)
+            collect3(pt.prop.rhs)
+            compl3 = any(Not(l) in lits3 for l in lits3)
+            violations.append({'function': 'conversion proplogic.norm_full',
+                               'clause': 'idempotent:complementary-members' if compl3 else 'idempotent',
                                'what': 'normal form %s is normalised further to %s' % (pt.prop.rhs, pt3.prop.rhs),
                                'term': repr(t)})
 
